@@ -167,4 +167,17 @@ CHECKS = {
                 "FAIL). Non-trivial: >=2 actions for one command, a pattern with | ^ $ or escape, or a service with a match condition.",
         "assumptions": COMMON_ASSUME + ["Go regexp decides whether a pattern is valid and what it matches", "service-level is_optional is not generated (the statement speaks of value optionality)"],
     },
+    "C12": {
+        "quick": 1500, "thorough": 60000,
+        "rule": "rapid draws 1..6 accounting requests on one connection against a fixed configuration (users with the file accounter, via a "
+                "group, with an unregistered accounter type, with none, in another scope, unknown): any flag octet (biased to "
+                "start/stop/watchdog/update and stop+watchdog), every method/type/service enum, priv 0..15, header seq 1/3/5, text "
+                "fields and 0..255 arguments built from %, %d, %!, %s%s%s, quotes, backslashes, <, &, NUL and other control bytes, "
+                "1 in 10 with a truncated body; plus every flag octet x seq 1/3/5 and every single ASCII byte deterministically. "
+                "Oracle: SUCCESS => exactly one sink line between request and reply, stamped before the reply's Write in the shared "
+                "event log, whose text (rendered as log.Logger would) JSON-decodes to exactly the request's flags, method, priv, type, "
+                "service, user, port, rem_addr and argument list; undecodable / stop+watchdog / unknown user / no accounter => ERROR. "
+                "Non-trivial: a field with %, quote, backslash or a control character, or >=16 arguments.",
+        "assumptions": COMMON_ASSUME + ["a sink line for a request answered ERROR is allowed", "record field names are matched case-insensitively with common aliases"],
+    },
 }
